@@ -122,6 +122,15 @@ func (t *connectTransaction) WillTopic(snWillTopic *snPkts1.WillTopic) error {
 func (t *connectTransaction) WillMsg(snWillMsg *snPkts1.WillMsg) error {
 	t.mqConnect.WillMessage = snWillMsg.WillMsg
 
+	// An empty WILLTOPIC means "no will" (MQTT-SN specification v. 1.2, chapter
+	// 5.4.7) and MQTT requires a non-empty will topic whenever the will flag is set.
+	if t.mqConnect.WillTopic == "" {
+		t.mqConnect.WillFlag = false
+		t.mqConnect.WillQos = 0
+		t.mqConnect.WillRetain = false
+		t.mqConnect.WillMessage = nil
+	}
+
 	// All information successfully gathered - send MQTT connect.
 	return t.handler.mqttSend(t.mqConnect)
 }
